@@ -322,7 +322,11 @@ func (c *Check) Finish(verifDir string, explanation string, notDecided []string)
 		"seed":        c.Seed,
 		"level":       "other",
 		"coverage":    cov,
-		"assumptions": c.assume,
+		"assumptions": append([]string{
+			"the analysed configuration(s) are the ones the module is built for; code behind other build tags is not seen",
+			"callees outside the module (stdlib, gofork asn1, rpc/ndr, aescts, goidentity, gorilla) behave as documented",
+			"rendered access paths identify memory by path, not by value: two loads of the same path are assumed to see the same value unless a rule states otherwise",
+		}, c.assume...),
 		"wall_s":      time.Since(c.start).Seconds(),
 		"violations":  nViol,
 	}
